@@ -7,6 +7,7 @@ import (
 	"regexp"
 	"runtime"
 	"strings"
+	"syscall"
 	"testing"
 	"testing/synctest"
 )
@@ -93,3 +94,15 @@ func Bubble(t *testing.T, f func()) (exitErr error) {
 
 // Wait is synctest.Wait.
 func Wait() { synctest.Wait() }
+
+// Settle lets the other goroutines run for a short REAL time.  Unlike Wait it does not
+// require them to be durably blocked, so it is usable while a goroutine held at a hook
+// point owns one of the code's own mutexes (others then block on that mutex, which
+// synctest does not consider durable).
+func Settle() {
+	for i := 0; i < 12; i++ {
+		runtime.Gosched()
+		ts := syscall.Timespec{Nsec: 150_000}
+		syscall.Nanosleep(&ts, nil)
+	}
+}
